@@ -13,17 +13,33 @@
 //!
 //! Honest note: "a rejection leaves all accounts unchanged" follows from transaction atomicity, which
 //! the runtime (here: hostsvm) provides; what is observed is the rejection.
+//!
+//! Five programs are covered (store, treasury, timelock, liquidity-provider, competition), each with
+//! its own table. Treasury / timelock check their roles through a CPI into the store (`check_role`),
+//! so the same three variants apply to them; the liquidity-provider program has a recorded authority
+//! and the competition callbacks accept only the store's callback-authority PDA (variants B and C).
 use crate::sim::Sim;
-use crate::world::{exchange::load, *};
-use anchor_lang::{prelude::Pubkey, solana_program::{hash::hashv, instruction::Instruction}};
-use gmsol_store::states::Store;
+use crate::world::ix as ix_;
+use crate::world::{
+    competition as wc,
+    exchange::{load, OrderKind, OrderReq},
+    lp as wlp, timelock as wtl, treasury as wtr, *,
+};
+use anchor_lang::{prelude::Pubkey, solana_program::{hash::hashv, instruction::{AccountMeta, Instruction}}};
+use gmsol_store::states::{Position, Store};
 use gmsol_utils::role::RoleKey;
-use hostsvm::Svm;
+use hostsvm::{token, Svm, TxError, TxMeta};
 use std::collections::{BTreeMap, BTreeSet};
-use vcommon::{json, monitor::run_shards, Args, Monitor};
+use vcommon::{json, monitor::{guard, run_shards}, Args, Monitor};
 
 #[derive(Clone, Copy, Debug, PartialEq, Eq)]
 pub enum Priv {
+    /// Holder of `__TLD_<role>`, `<role>` being the instruction's `role` argument (timelock approvals).
+    TimelockedRoleArg,
+    /// The authority recorded in the program's own global state (liquidity-provider program).
+    ProgramAuthority,
+    /// The store program's callback-authority PDA (competition callbacks).
+    CallbackAuthority,
     /// Store authority (admin) only.
     Admin,
     /// Holder of the named store role.
@@ -183,11 +199,176 @@ pub fn disc(name: &str) -> [u8; 8] {
     d
 }
 
-fn lookup(ix: &Instruction) -> Option<(&'static str, Priv)> {
-    if ix.program_id != STORE_PID || ix.data.len() < 8 {
+use gmsol_timelock::roles as tlr;
+use gmsol_treasury::roles as trr;
+
+/// Treasury program: every role is a store role checked through a `check_role` CPI ("# CHECK: Only
+/// TREASURY_* can use" on each handler).
+pub const TREASURY_TABLE: &[(&str, Priv)] = &[
+    // anyone may pay; the receiver PDA accepts a hand-over the store's receiver started
+    ("initialize_config", Open),
+    ("set_treasury_vault_config", Role(trr::TREASURY_ADMIN)),
+    ("set_gt_factor", Role(trr::TREASURY_ADMIN)),
+    ("set_buyback_factor", Role(trr::TREASURY_ADMIN)),
+    ("initialize_treasury_vault_config", Role(trr::TREASURY_ADMIN)),
+    ("insert_token_to_treasury_vault", Role(trr::TREASURY_ADMIN)),
+    ("remove_token_from_treasury_vault", Role(trr::TREASURY_ADMIN)),
+    ("toggle_token_flag", Role(trr::TREASURY_ADMIN)),
+    ("deposit_to_treasury_vault", Role(trr::TREASURY_KEEPER)),
+    ("withdraw_from_treasury_vault", Role(trr::TREASURY_WITHDRAWER)),
+    ("confirm_gt_buyback", Role(trr::TREASURY_KEEPER)),
+    ("transfer_receiver", Role(trr::TREASURY_OWNER)),
+    ("set_referral_reward", Role(trr::TREASURY_ADMIN)),
+    ("claim_fees", Role(trr::TREASURY_KEEPER)),
+    ("prepare_gt_bank", Role(trr::TREASURY_KEEPER)),
+    ("sync_gt_bank_v2", Role(trr::TREASURY_WITHDRAWER)),
+    // the owner of the GT exchange ("the ownership should be checked by the CPI")
+    ("complete_gt_exchange", Bound),
+    ("create_swap_v2", Role(trr::TREASURY_KEEPER)),
+    ("cancel_swap", Role(trr::TREASURY_KEEPER)),
+];
+
+/// Timelock program ("# CHECK: Only TIMELOCK_* can use"; approvals need `__TLD_<role>`).
+pub const TIMELOCK_TABLE: &[(&str, Priv)] = &[
+    ("initialize_config", Role(tlr::TIMELOCK_ADMIN)),
+    ("increase_delay", Role(tlr::TIMELOCK_ADMIN)),
+    // anyone may pay for an executor account
+    ("initialize_executor", Open),
+    ("create_instruction_buffer", Role(tlr::TIMELOCK_KEEPER)),
+    ("approve_instruction", TimelockedRoleArg),
+    ("approve_instructions", TimelockedRoleArg),
+    ("cancel_instruction", Role(tlr::TIMELOCK_ADMIN)),
+    ("cancel_instructions", Role(tlr::TIMELOCK_ADMIN)),
+    ("execute_instruction", Role(tlr::TIMELOCK_KEEPER)),
+    ("revoke_role", Role(tlr::TIMELOCKED_ADMIN)),
+    ("set_expected_price_provider", Role(tlr::TIMELOCKED_MARKET_KEEPER)),
+];
+
+/// Liquidity-provider program ("the `authority` signer must match `global_state.authority`").
+pub const LP_TABLE: &[(&str, Priv)] = &[
+    // first caller becomes the authority (no privilege documented)
+    ("initialize", Open),
+    ("set_claim_enabled", ProgramAuthority),
+    ("set_pricing_staleness", ProgramAuthority),
+    ("update_apy_gradient_sparse", ProgramAuthority),
+    ("update_apy_gradient_range", ProgramAuthority),
+    ("stake_gm", Open),
+    ("stake_glv", Open),
+    // nobody signs: read-only reward computation
+    ("calculate_gt_reward", Open),
+    // owner of the position
+    ("claim_gt", Bound),
+    ("unstake_lp", Bound),
+    ("update_min_stake_value", ProgramAuthority),
+    ("transfer_authority", ProgramAuthority),
+    // the recorded pending authority
+    ("accept_authority", Bound),
+    ("create_lp_token_controller", ProgramAuthority),
+    ("disable_lp_token_controller", ProgramAuthority),
+];
+
+/// Competition program ("the callback-authority PDA (must be a signer)").
+pub const COMPETITION_TABLE: &[(&str, Priv)] = &[
+    // the payer becomes the authority of its own competition PDA
+    ("initialize_competition", Open),
+    ("create_participant_idempotent", Open),
+    ("on_created", CallbackAuthority),
+    ("on_updated", CallbackAuthority),
+    ("on_executed", CallbackAuthority),
+    ("on_closed", CallbackAuthority),
+    // the trader that owns the participant account
+    ("close_participant", Bound),
+];
+
+#[derive(Clone, Copy, Debug, PartialEq, Eq, PartialOrd, Ord)]
+pub enum Prog {
+    Store,
+    Treasury,
+    Timelock,
+    Lp,
+    Competition,
+}
+
+impl Prog {
+    pub const ALL: [Prog; 5] = [Prog::Store, Prog::Treasury, Prog::Timelock, Prog::Lp, Prog::Competition];
+
+    pub fn name(self) -> &'static str {
+        match self {
+            Prog::Store => "store",
+            Prog::Treasury => "treasury",
+            Prog::Timelock => "timelock",
+            Prog::Lp => "liquidity_provider",
+            Prog::Competition => "competition",
+        }
+    }
+
+    pub fn id(self) -> Pubkey {
+        match self {
+            Prog::Store => STORE_PID,
+            Prog::Treasury => gmsol_treasury::ID,
+            Prog::Timelock => gmsol_timelock::ID,
+            Prog::Lp => gmsol_liquidity_provider::ID,
+            Prog::Competition => gmsol_competition::ID,
+        }
+    }
+
+    pub fn table(self) -> &'static [(&'static str, Priv)] {
+        match self {
+            Prog::Store => STORE_TABLE,
+            Prog::Treasury => TREASURY_TABLE,
+            Prog::Timelock => TIMELOCK_TABLE,
+            Prog::Lp => LP_TABLE,
+            Prog::Competition => COMPETITION_TABLE,
+        }
+    }
+
+    /// The program's `lib.rs` (instruction names only: used to check that the table is complete).
+    fn source(self) -> &'static str {
+        match self {
+            Prog::Store => include_str!("/repo/programs/store/src/lib.rs"),
+            Prog::Treasury => include_str!("/repo/programs/treasury/src/lib.rs"),
+            Prog::Timelock => include_str!("/repo/programs/timelock/src/lib.rs"),
+            Prog::Lp => include_str!("/repo/programs/liquidity-provider/src/lib.rs"),
+            Prog::Competition => include_str!("/repo/programs/competition/src/lib.rs"),
+        }
+    }
+
+    /// Names of the `pub fn`s directly inside the `#[program]` module.
+    fn declared_instructions(self) -> Vec<String> {
+        let src = self.source();
+        let Some(p) = src.find("#[program]") else { return vec![] };
+        let body = &src[p..];
+        let body = &body[..body.find("\n}\n").unwrap_or(body.len())];
+        body.lines()
+            .filter_map(|l| l.strip_prefix("    pub fn "))
+            .map(|r| r.chars().take_while(|c| c.is_alphanumeric() || *c == '_').collect())
+            .collect()
+    }
+
+    /// Instructions missing from / unknown to the table (both empty = table complete).
+    fn table_drift(self) -> (Vec<String>, Vec<String>) {
+        let declared = self.declared_instructions();
+        let missing = declared.iter().filter(|n| !self.table().iter().any(|(t, _)| t == n)).cloned().collect();
+        let extra = self.table().iter().filter(|(t, _)| !declared.iter().any(|n| n == t)).map(|(t, _)| t.to_string()).collect();
+        (missing, extra)
+    }
+}
+
+/// Counter / distinct-signature label: plain instruction name for the store, `program.name` otherwise.
+fn label(p: Prog, name: &str) -> String {
+    if p == Prog::Store {
+        name.to_string()
+    } else {
+        format!("{}.{name}", p.name())
+    }
+}
+
+fn lookup(ix: &Instruction) -> Option<(Prog, &'static str, Priv)> {
+    if ix.data.len() < 8 {
         return None;
     }
-    STORE_TABLE.iter().find(|(n, _)| disc(n) == ix.data[..8]).copied()
+    let prog = Prog::ALL.into_iter().find(|p| p.id() == ix.program_id)?;
+    prog.table().iter().find(|(n, _)| disc(n) == ix.data[..8]).map(|(n, p)| (prog, *n, *p))
 }
 
 fn has_role(svm: &Svm, store: &Pubkey, who: &Pubkey, role: &str) -> bool {
@@ -204,25 +385,64 @@ fn substitute(ix: &Instruction, from: &Pubkey, to: &Pubkey) -> Instruction {
     ix
 }
 
-struct Env {
-    store: Pubkey,
-    admin: Pubkey,
+/// First argument of an instruction decoded as a borsh `String`.
+fn borsh_string_arg(data: &[u8]) -> Option<String> {
+    let len = u32::from_le_bytes(data.get(8..12)?.try_into().ok()?) as usize;
+    String::from_utf8(data.get(12..12usize.checked_add(len)?)?.to_vec()).ok()
 }
 
+/// Store roles any one of which satisfies the privilege (empty: not a role privilege).
+fn required_roles(p: Priv, ix: &Instruction) -> Vec<String> {
+    match p {
+        Role(r) => vec![r.to_string()],
+        MarketConfig => vec![RoleKey::MARKET_KEEPER.to_string(), RoleKey::MARKET_CONFIG_KEEPER.to_string()],
+        TimelockedRoleArg => borsh_string_arg(&ix.data).map(|r| vec![format!("{}{r}", tlr::TIMELOCKED)]).unwrap_or_default(),
+        _ => vec![],
+    }
+}
+
+/// Whether a cluster restart is pending for the store (then RESTART_ADMIN legitimately stands for
+/// every role): asked of the store's own `has_restarted` inside the runtime context of a scratch copy.
+fn restart_pending(svm: &Svm, store: &Pubkey) -> bool {
+    let Some(st) = load::<Store>(svm, store) else { return false };
+    let mut probe = svm.clone();
+    user::in_runtime(&mut probe, move || st.has_restarted().unwrap_or(true)).unwrap_or(true)
+}
+
+fn role_ix(store: Pubkey, authority: Pubkey, user: Pubkey, role: &str, grant: bool) -> Instruction {
+    if grant {
+        six(gmsol_store::accounts::GrantRole { authority, store }, gmsol_store::instruction::GrantRole { user, role: role.to_string() })
+    } else {
+        six(gmsol_store::accounts::RevokeRole { authority, store }, gmsol_store::instruction::RevokeRole { user, role: role.to_string() })
+    }
+}
+
+struct Env {
+    store: Pubkey,
+}
+
+type Budget = BTreeMap<(Prog, &'static str), u32>;
+
 /// Replay one traced transaction with mutated authorities.
-fn replay(m: &mut Monitor, env: &Env, t: &Traced, per_name_budget: &mut BTreeMap<&'static str, u32>, shard: u64) {
+fn replay(m: &mut Monitor, env: &Env, t: &Traced, per_name_budget: &mut Budget, shard: u64) {
     for (i, ix) in t.ixs.iter().enumerate() {
-        let Some((name, privilege)) = lookup(ix) else { continue };
+        let Some((prog, name, privilege)) = lookup(ix) else { continue };
+        let label = label(prog, name);
         if privilege == Open {
-            m.count(&format!("seen_open_{name}"));
+            m.count(&format!("seen_open_{label}"));
             continue;
         }
-        let budget = per_name_budget.entry(name).or_insert(0);
+        let budget = per_name_budget.entry((prog, name)).or_insert(0);
         if *budget >= 12 {
             continue;
         }
         // the signer of this instruction
         let Some(signer) = ix.accounts.iter().find(|a| a.is_signer && t.signers.contains(&a.pubkey)).map(|a| a.pubkey) else { continue };
+        let roles = required_roles(privilege, ix);
+        if privilege == TimelockedRoleArg && roles.is_empty() {
+            m.count("harness_role_argument_not_decodable");
+            continue;
+        }
         // state right before instruction i
         let mut base = t.pre.clone();
         if i > 0 && base.process(&t.ixs[..i], &t.signers).is_err() {
@@ -237,45 +457,47 @@ fn replay(m: &mut Monitor, env: &Env, t: &Traced, per_name_budget: &mut BTreeMap
             }
         }
         *budget += 1;
-        m.count(&format!("positive_{name}"));
+        m.count(&format!("positive_{label}"));
         let stranger = hostsvm::key("c19-stranger");
-        let wit = |variant: &str| json!({"shard": shard, "instruction": name, "variant": variant, "privilege": format!("{privilege:?}"), "signer": signer.to_string()});
+        let sig = |class: &str| format!("C19:{}:{name}:{class}", prog.name());
+        let wit = |variant: &str| {
+            json!({"shard": shard, "program": prog.name(), "instruction": name, "variant": variant, "privilege": format!("{privilege:?}"),
+                "required_roles": roles, "signer": signer.to_string(),
+                "accounts": ix.accounts.iter().map(|a| a.pubkey.to_string()).collect::<Vec<_>>()})
+        };
         if m.wants_sample() {
             m.sample(wit("positive run recorded; replayed with A: role revoked, B: stranger, C: holder of all other roles"));
         }
-        // Variant A: revoke the role of the same signer
-        let roles: Vec<&'static str> = match privilege {
-            Role(r) => vec![r],
-            MarketConfig => vec![RoleKey::MARKET_KEEPER, RoleKey::MARKET_CONFIG_KEEPER],
-            _ => vec![],
-        };
-        if let Role(r) = privilege {
-            if !has_role(&base, &env.store, &signer, r) && signer != env.admin {
+        // The store as it is right before the instruction: its authority signs the grants / revocations
+        // below (for a PDA authority — the timelock's ADMIN executor wallet — the harness lists the key as
+        // a signer, which hostsvm accepts: equivalent to the timelock executing that grant / revocation).
+        let store_state = load::<Store>(&base, &env.store);
+        let authority = store_state.as_ref().map(|s| s.authority);
+        let pending = restart_pending(&base, &env.store);
+        if matches!(privilege, Role(_) | TimelockedRoleArg) && store_state.is_some() && !pending && Some(signer) != authority {
+            if !roles.iter().any(|r| has_role(&base, &env.store, &signer, r)) {
                 m.eval();
-                m.violation(&format!("C19:store:{name}:succeeded_without_required_role"), wit("baseline"));
+                m.violation(&sig("succeeded_without_required_role"), wit("baseline"));
             }
         }
-        if !roles.is_empty() {
+        // Variant A: revoke the role of the same signer
+        if let (false, Some(authority)) = (roles.is_empty(), authority) {
             let mut s = base.clone();
             let mut revoked = true;
             for r in &roles {
-                if has_role(&s, &env.store, &signer, r) {
-                    let rv = six(
-                        gmsol_store::accounts::RevokeRole { authority: env.admin, store: env.store },
-                        gmsol_store::instruction::RevokeRole { user: signer, role: r.to_string() },
-                    );
-                    if s.process(&[rv], &[env.admin]).is_err() {
-                        revoked = false;
-                    }
+                if has_role(&s, &env.store, &signer, r) && s.process(&[role_ix(env.store, authority, signer, r, false)], &[authority]).is_err() {
+                    revoked = false;
                 }
             }
-            if revoked && signer != env.admin {
+            if !revoked {
+                m.count("variant_A_skipped_revoke_failed");
+            } else if signer != authority {
                 m.eval();
                 match s.process(std::slice::from_ref(ix), &t.signers) {
-                    Ok(_) => m.violation(&format!("C19:store:{name}:accepted_after_role_revoked"), wit("A: same signer, role revoked")),
+                    Ok(_) => m.violation(&sig("accepted_after_role_revoked"), wit("A: same signer, role revoked")),
                     Err(_) => {
-                        m.count(&format!("denied_A_{name}"));
-                        m.nontrivial(format!("A:{name}").as_bytes());
+                        m.count(&format!("denied_A_{label}"));
+                        m.nontrivial(format!("A:{label}").as_bytes());
                     }
                 }
             }
@@ -288,55 +510,638 @@ fn replay(m: &mut Monitor, env: &Env, t: &Traced, per_name_budget: &mut BTreeMap
             let signers: Vec<Pubkey> = t.signers.iter().map(|k| if *k == signer { stranger } else { *k }).collect();
             m.eval();
             match s.process(&[ix2], &signers) {
-                Ok(_) => m.violation(&format!("C19:store:{name}:accepted_from_stranger"), wit("B: stranger substituted for the signer")),
+                Ok(_) => m.violation(&sig("accepted_from_stranger"), wit("B: stranger substituted for the signer")),
                 Err(_) => {
-                    m.count(&format!("denied_B_{name}"));
-                    m.nontrivial(format!("B:{name}").as_bytes());
+                    m.count(&format!("denied_B_{label}"));
+                    m.nontrivial(format!("B:{label}").as_bytes());
                 }
             }
         }
-        // Variant C: a key holding every other role incl. RESTART_ADMIN (and, for Admin, every role); no restart pending
-        {
-            let mut s = base.clone();
-            let other = hostsvm::key("c19-other-roles");
-            s.airdrop(&other, 100 * LAMPORTS);
-            let mut ok = true;
-            for r in ALL_ROLES {
-                // RESTART_ADMIN is granted too: with no cluster restart pending it confers nothing
-                if roles.contains(r) {
-                    continue;
-                }
-                let g = six(
-                    gmsol_store::accounts::GrantRole { authority: env.admin, store: env.store },
-                    gmsol_store::instruction::GrantRole { user: other, role: r.to_string() },
-                );
-                if s.process(&[g], &[env.admin]).is_err() {
-                    ok = false;
-                }
+        // Variant C: a key holding every other enabled role of the store incl. RESTART_ADMIN (and, for
+        // non-role privileges, every role); RESTART_ADMIN is left out only while a restart is pending,
+        // when it legitimately stands for any role.
+        if !matches!(privilege, Role(_) | Admin | MarketConfig | TimelockedRoleArg | ProgramAuthority | CallbackAuthority) {
+            continue;
+        }
+        let (Some(st), Some(authority)) = (store_state, authority) else {
+            m.count("variant_C_skipped_no_store");
+            continue;
+        };
+        let mut s = base.clone();
+        let other = hostsvm::key("c19-other-roles");
+        s.airdrop(&other, 100 * LAMPORTS);
+        let all: Vec<String> = st.role().roles().filter_map(|r| r.ok().map(str::to_string)).collect();
+        let mut ok = true;
+        let mut granted = 0u64;
+        for r in &all {
+            if roles.contains(r) || (pending && r == RoleKey::RESTART_ADMIN) || !matches!(st.role().enabled_role_index(r), Ok(Some(_))) {
+                continue;
             }
-            if ok && matches!(privilege, Role(_) | Admin | MarketConfig) {
-                let ix2 = substitute(ix, &signer, &other);
-                let signers: Vec<Pubkey> = t.signers.iter().map(|k| if *k == signer { other } else { *k }).collect();
-                m.eval();
-                match s.process(&[ix2], &signers) {
-                    Ok(_) => m.violation(&format!("C19:store:{name}:accepted_from_holder_of_other_roles"), wit("C: signer replaced by a holder of all other roles")),
-                    Err(_) => {
-                        m.count(&format!("denied_C_{name}"));
-                        m.nontrivial(format!("C:{name}").as_bytes());
-                    }
-                }
+            if s.process(&[role_ix(env.store, authority, other, r, true)], &[authority]).is_err() {
+                ok = false;
+            } else {
+                granted += 1;
+            }
+        }
+        if !ok {
+            m.count("variant_C_skipped_grant_failed");
+            continue;
+        }
+        m.max("max_other_roles_granted_in_variant_C", granted);
+        let ix2 = substitute(ix, &signer, &other);
+        let signers: Vec<Pubkey> = t.signers.iter().map(|k| if *k == signer { other } else { *k }).collect();
+        m.eval();
+        match s.process(&[ix2], &signers) {
+            Ok(_) => m.violation(&sig("accepted_from_holder_of_other_roles"), wit("C: signer replaced by a holder of all other roles")),
+            Err(_) => {
+                m.count(&format!("denied_C_{label}"));
+                m.nontrivial(format!("C:{label}").as_bytes());
             }
         }
     }
 }
 
+/// Outcome log of scenario steps: a failed step only costs coverage (it is counted and, with
+/// `C19_DEBUG=1`, printed to stderr).
+struct Steps {
+    failed: Vec<String>,
+    debug: bool,
+}
+
+impl Steps {
+    fn new() -> Steps {
+        Steps { failed: vec![], debug: std::env::var_os("C19_DEBUG").is_some() }
+    }
+
+    fn ok<T>(&mut self, what: &str, r: Result<T, (TxError, TxMeta)>) -> Option<T> {
+        match r {
+            Ok(v) => Some(v),
+            Err((e, meta)) => {
+                if self.debug {
+                    let n = meta.logs.len().saturating_sub(8);
+                    eprintln!("C19 scenario step `{what}` failed: {e:?} at ix {:?}; logs: {:?}", meta.failed_ix, &meta.logs[n..]);
+                }
+                self.failed.push(what.to_string());
+                None
+            }
+        }
+    }
+
+    fn go(&mut self, w: &mut World, what: &str, ix: Instruction, signers: &[Pubkey]) -> bool {
+        let r = w.send(&[ix], signers);
+        self.ok(what, r).is_some()
+    }
+}
+
+const E18: u128 = crate::sim::E18;
+
+const CAPS: [(&str, u128); 4] = [
+    ("max_pool_amount_for_long_token", 1_000_000_000_000_000_000u128),
+    ("max_pool_amount_for_short_token", 1_000_000_000_000_000_000u128),
+    ("max_pool_value_for_deposit_for_long_token", 1_000_000_000 * UNIT),
+    ("max_pool_value_for_deposit_for_short_token", 1_000_000_000 * UNIT),
+];
+
+/// A store with oracle, BTC (synthetic) / SOL / USDC, one BTC/USD[SOL-USDC] market with generous caps,
+/// published prices and base liquidity. Not traced (callers enable tracing afterwards).
+fn small_exchange_world() -> (World, [usize; 3], usize) {
+    let mut w = World::bootstrap_store();
+    w.svm.keep_logs = std::env::var_os("C19_DEBUG").is_some();
+    w.bootstrap_oracle();
+    let btc = w.add_token("BTC", 8, 2, true);
+    let sol = w.add_token("SOL", 9, 4, false);
+    let usdc = w.add_token("USDC", 6, 6, false);
+    let mk = w.add_market(btc, sol, usdc);
+    // a second SOL/USDC market (index 1) so that market tokens can be shifted
+    let mk2 = w.add_market(sol, sol, usdc);
+    for (m, k, v) in [mk, mk2].into_iter().flat_map(|m| CAPS.iter().map(move |(k, v)| (m, *k, *v))) {
+        let _ = w.set_market_config(m, k, v);
+    }
+    publish(&mut w, [btc, sol, usdc], 60_000 * E18);
+    let lp = w.add_user("lp");
+    let (sol_m, usdc_m) = (w.tokens[sol].mint, w.tokens[usdc].mint);
+    token::fund_ata(&mut w.svm, &lp, &sol_m, 1_000_000 * 1_000_000_000);
+    token::fund_ata(&mut w.svm, &lp, &usdc_m, 100_000_000 * 1_000_000);
+    let d = w.create_deposit(lp, mk, 6_000 * 1_000_000_000, 1_000_000 * 1_000_000, None, None, &[], &[], 0).unwrap_or_else(|(e, _)| panic!("bootstrap step `create_deposit` failed: {e:?}"));
+    w.execute_deposit(d, true).unwrap_or_else(|(e, _)| panic!("bootstrap step `execute_deposit` failed: {e:?}"));
+    w.close_deposit(lp, d).unwrap_or_else(|(e, _)| panic!("bootstrap step `close_deposit` failed: {e:?}"));
+    (w, [btc, sol, usdc], mk)
+}
+
+fn publish(w: &mut World, [btc, sol, usdc]: [usize; 3], btc_p: u128) {
+    let _ = w.set_price(btc, btc_p - btc_p / 10_000, btc_p, btc_p + btc_p / 10_000);
+    let _ = w.set_price(sol, 150 * E18, 150 * E18, 150 * E18);
+    let _ = w.set_price(usdc, E18, E18, E18);
+}
+
+/// Positive scenarios for store instructions the exchange workload rarely or never completes: feed
+/// status flags, empty claimable accounts, order updates by the owner, cancellation of an order whose
+/// position is gone, empty positions, the closed state, disabled virtual inventories.
+fn store_more_scenarios(st: &mut Steps) -> (Env, Vec<Traced>) {
+    use gmsol_store::{accounts as sa, instruction as si};
+    use gmsol_utils::oracle::PriceProviderKind;
+    let (mut w, toks, mk) = small_exchange_world();
+    let [btc, _sol, usdc] = toks;
+    let (keeper, store, token_map) = (w.keeper, w.store, w.token_map);
+    let market = w.markets[mk].market;
+    let (btc_mint, usdc_mint) = (w.tokens[btc].mint, w.tokens[usdc].mint);
+    let alice = w.add_user("alice");
+    let bob = w.add_user("bob");
+    for u in [alice, bob] {
+        token::fund_ata(&mut w.svm, &u, &usdc_mint, 10_000_000 * 1_000_000);
+    }
+    w.enable_trace(3);
+    // feed config market-status flag (AllowPreMarket) of the Chainlink data-streams feed
+    st.go(
+        &mut w,
+        "set_feed_config_market_status_flag",
+        six(sa::SetFeedConfigMarketStatusFlag { authority: keeper, store, token_map, token: btc_mint }, si::SetFeedConfigMarketStatusFlag { provider: PriceProviderKind::ChainlinkDataStreams as u8, flag: 1, enable: true }),
+        &[keeper],
+    );
+    // an empty claimable account is created and closed again
+    {
+        let ts = w.svm.clock.unix_timestamp;
+        let ix = w.use_claimable_ix(keeper, usdc_mint, alice, ts, 0);
+        st.go(&mut w, "use_claimable_account", ix, &[keeper]);
+        let account = w.claimable_pda(&usdc_mint, &alice, ts);
+        st.go(
+            &mut w,
+            "close_empty_claimable_account",
+            six(
+                sa::CloseEmptyClaimableAccount { authority: keeper, store, mint: usdc_mint, owner: alice, account, system_program: anchor_lang::system_program::ID, token_program: anchor_spl::token::spl_token::ID },
+                si::CloseEmptyClaimableAccount { timestamp: ts },
+            ),
+            &[keeper],
+        );
+    }
+    // closed state of the market from fresh prices
+    {
+        let mut ix = six(sa::UpdateClosedState { authority: keeper, store, token_map, oracle: w.oracle, market }, si::UpdateClosedState {});
+        ix.accounts.extend(w.feed_metas(&w.ordered_tokens(mk)));
+        st.go(&mut w, "update_closed_state", ix, &[keeper]);
+    }
+    // alice: long position, a pending limit decrease that she updates, then the position is closed by a
+    // market decrease and the keeper cancels the orphaned limit order
+    let unit = 60_000 * E18 * 100 / 100_000_000; // unit price of BTC (8 decimals)
+    let size = 30_000 * UNIT;
+    let mut inc = OrderReq::new(OrderKind::MarketIncrease, mk, true, false);
+    inc.initial_collateral_delta_amount = 10_000 * 1_000_000;
+    inc.size_delta_value = size;
+    let opened = match st.ok("create_order(increase)", w.create_order(alice, &inc)) {
+        Some(o) => {
+            let r = w.execute_order(o, true);
+            let ok = st.ok("execute_order(increase)", r).is_some();
+            let _ = w.close_order(alice, o);
+            ok
+        }
+        None => false,
+    };
+    if opened {
+        let mut lim = OrderReq::new(OrderKind::LimitDecrease, mk, true, false);
+        lim.size_delta_value = size;
+        lim.trigger_price = Some(unit / 100 * 120);
+        if let Some(l1) = st.ok("create_order(limit decrease)", w.create_order(alice, &lim)) {
+            let ea = w.event_authority();
+            st.go(
+                &mut w,
+                "update_order_v2",
+                six(
+                    sa::UpdateOrderV2 {
+                        owner: alice,
+                        store,
+                        market,
+                        order: l1,
+                        callback_authority: None,
+                        callback_program: None,
+                        callback_shared_data_account: None,
+                        callback_partitioned_data_account: None,
+                        event_authority: ea,
+                        program: STORE_PID,
+                    },
+                    si::UpdateOrderV2 {
+                        params: gmsol_store::states::UpdateOrderParams { size_delta_value: None, acceptable_price: None, trigger_price: Some(unit / 100 * 130), min_output: None, valid_from_ts: None },
+                    },
+                ),
+                &[alice],
+            );
+            st.go(&mut w, "set_should_keep_position_account", six(sa::SetShouldKeepPositionAccount { owner: alice, order: l1 }, si::SetShouldKeepPositionAccount { keep: true }), &[alice]);
+            let mut dec = OrderReq::new(OrderKind::MarketDecrease, mk, true, false);
+            dec.size_delta_value = size;
+            if let Some(o) = st.ok("create_order(decrease)", w.create_order(alice, &dec)) {
+                let r = w.execute_order(o, true);
+                st.ok("execute_order(decrease)", r);
+                let _ = w.close_order(alice, o);
+            }
+            match w.cancel_order_if_no_position_ix(keeper, l1) {
+                Some(ix) => {
+                    st.go(&mut w, "cancel_order_if_no_position", ix, &[keeper]);
+                }
+                None => st.failed.push("cancel_order_if_no_position(ix)".into()),
+            }
+        }
+    }
+    // bob: the position account prepared for an order he cancels stays empty and can be closed by him
+    {
+        let mut inc = OrderReq::new(OrderKind::MarketIncrease, mk, true, false);
+        inc.initial_collateral_delta_amount = 1_000 * 1_000_000;
+        inc.size_delta_value = 2_000 * UNIT;
+        if let Some(o) = st.ok("create_order(bob)", w.create_order(bob, &inc)) {
+            let r = w.close_order(bob, o);
+            st.ok("close_order(bob)", r);
+            let position = w.position_pda(&bob, mk, true, false);
+            st.go(&mut w, "close_empty_position", six(sa::CloseEmptyPosition { owner: bob, store, position }, si::CloseEmptyPosition {}), &[bob]);
+        }
+    }
+    // a market leaves a virtual inventory that was disabled while the market was still a member
+    {
+        let sys = anchor_lang::system_program::ID;
+        let vi = pda::find_virtual_inventory_for_swaps_address(&store, 5, &STORE_PID).0;
+        st.go(
+            &mut w,
+            "create_virtual_inventory_for_swaps",
+            six(sa::CreateVirtualInventoryForSwaps { authority: keeper, store, virtual_inventory: vi, system_program: sys }, si::CreateVirtualInventoryForSwaps { index: 5, long_amount_decimals: 9, short_amount_decimals: 6 }),
+            &[keeper],
+        );
+        st.go(&mut w, "join_virtual_inventory_for_swaps", six(sa::JoinVirtualInventoryForSwaps { authority: keeper, store, token_map, virtual_inventory: vi, market }, si::JoinVirtualInventoryForSwaps {}), &[keeper]);
+        st.go(&mut w, "disable_virtual_inventory", six(sa::DisableVirtualInventory { authority: keeper, store, virtual_inventory: vi }, si::DisableVirtualInventory {}), &[keeper]);
+        st.go(&mut w, "leave_disabled_virtual_inventory", six(sa::LeaveDisabledVirtualInventory { authority: keeper, store, virtual_inventory: vi, market }, si::LeaveDisabledVirtualInventory {}), &[keeper]);
+    }
+    // the base liquidity provider shifts market tokens from the BTC market to the SOL market
+    {
+        let lp = hostsvm::key("user:lp");
+        if let Some(sh) = st.ok("create_shift", w.create_shift(lp, mk, mk + 1, 1_000_000_000, 0)) {
+            let r = w.execute_shift(sh, true);
+            st.ok("execute_shift", r);
+            let r = w.close_shift(lp, sh);
+            st.ok("close_shift", r);
+        }
+    }
+    // bob: a 10x long that a 15 % drop of the index makes liquidatable
+    {
+        let mut inc = OrderReq::new(OrderKind::MarketIncrease, mk, true, false);
+        inc.initial_collateral_delta_amount = 1_000 * 1_000_000;
+        inc.size_delta_value = 10_000 * UNIT;
+        if let Some(o) = st.ok("create_order(bob, 10x)", w.create_order(bob, &inc)) {
+            let r = w.execute_order(o, true);
+            if st.ok("execute_order(bob, 10x)", r).is_some() {
+                let _ = w.close_order(bob, o);
+                w.svm.warp(10);
+                publish(&mut w, toks, 51_000 * E18);
+                let r = w.liquidate(w.position_pda(&bob, mk, true, false));
+                st.ok("liquidate", r);
+            }
+        }
+    }
+    let traces = w.take_trace();
+    (Env { store }, traces)
+}
+
+/// ADL: low pnl-factor limits, long positions, the index price moved in the traders' favour until
+/// `update_adl_state` enables ADL and an `auto_deleverage` succeeds.
+fn adl_scenario(st: &mut Steps) -> (Env, Vec<Traced>) {
+    let (mut w, toks, mk) = small_exchange_world();
+    let usdc_mint = w.tokens[toks[2]].mint;
+    let keeper = w.keeper;
+    let _ = w.set_market_config(mk, "max_pnl_factor_for_long_adl", 5 * UNIT / 100);
+    let _ = w.set_market_config(mk, "min_pnl_factor_after_long_adl", UNIT / 100);
+    let mut positions = vec![];
+    for t in 0..3u128 {
+        let u = w.add_user(&format!("t{t}"));
+        token::fund_ata(&mut w.svm, &u, &usdc_mint, 10_000_000 * 1_000_000);
+        let mut req = OrderReq::new(OrderKind::MarketIncrease, mk, true, false);
+        req.initial_collateral_delta_amount = (20_000 + 5_000 * t as u64) * 1_000_000;
+        req.size_delta_value = (80_000 + 20_000 * t) * UNIT;
+        if let Some(o) = st.ok("create_order(adl trader)", w.create_order(u, &req)) {
+            let r = w.execute_order(o, true);
+            if st.ok("execute_order(adl trader)", r).is_some() {
+                positions.push(w.position_pda(&u, mk, true, false));
+            }
+        }
+    }
+    w.enable_trace(3);
+    let mut btc_p = 60_000 * E18;
+    let mut done = false;
+    for _hop in 0..8 {
+        w.svm.warp(10);
+        btc_p = btc_p / 100 * 115;
+        publish(&mut w, toks, btc_p);
+        let ix = w.update_adl_state_ix(keeper, mk, true);
+        let _ = w.send(&[ix], &[keeper]);
+        for p in positions.clone() {
+            let size = load::<Position>(&w.svm, &p).map(|p| p.state.size_in_usd).unwrap_or(0);
+            if size == 0 {
+                continue;
+            }
+            if w.auto_deleverage(p, size / 3 + 1).is_ok() {
+                done = true;
+            }
+        }
+        if done {
+            break;
+        }
+    }
+    if !done {
+        st.failed.push("auto_deleverage".into());
+    }
+    let traces = w.take_trace();
+    (Env { store: w.store }, traces)
+}
+
+/// Treasury: the whole GT-bank flow of the C37 monitor (world/treasury.rs) once, plus the receiver
+/// hand-over, referral rewards, withdrawal and the treasury swap (create / cancel).
+fn treasury_scenarios(st: &mut Steps) -> (Env, Vec<Traced>) {
+    use anchor_spl::{associated_token, token::spl_token};
+    use gmsol_treasury::{accounts as ta, instruction as ti};
+    let sys = anchor_lang::system_program::ID;
+    let (mut w, toks, mk) = small_exchange_world();
+    let [_btc, sol, usdc] = toks;
+    let (keeper, store) = (w.keeper, w.store);
+    let (sol_mint, usdc_mint) = (w.tokens[sol].mint, w.tokens[usdc].mint);
+    let u0 = w.add_user("u0");
+    let _ = w.prepare_user(u0);
+    // a position order so that the market holds claimable fees
+    token::fund_ata(&mut w.svm, &u0, &usdc_mint, 1_000_000_000_000);
+    let mut req = OrderReq::new(OrderKind::MarketIncrease, mk, false, false);
+    req.size_delta_value = 40_000 * UNIT;
+    req.initial_collateral_delta_amount = 8_000 * 1_000_000;
+    if let Ok(o) = w.create_order(u0, &req) {
+        let _ = w.execute_order(o, true);
+        let _ = w.close_order(u0, o);
+    }
+    w.enable_trace(3);
+    // enable_role / grant_role / transfer_receiver (store), initialize_config, initialize_treasury_vault_config,
+    // set_treasury_vault_config
+    let t = w.bootstrap_treasury(0);
+    st.ok("initialize_gt", w.initialize_gt(&gt::GtParams { decimals: 7, initial_minting_cost: 100 * UNIT / 10_000_000, grow_factor: UNIT + UNIT / 100, grow_step: 1_000_000_000, ranks: vec![10_000_000, 100_000_000, 1_000_000_000] }));
+    st.ok("insert_token_to_treasury_vault", w.treasury_insert_token(&t, usdc_mint));
+    st.ok("toggle_token_flag", w.treasury_toggle_token_flag(&t, usdc_mint, "allow_deposit", true));
+    st.ok("toggle_token_flag", w.treasury_toggle_token_flag(&t, usdc_mint, "allow_withdrawal", true));
+    st.ok("insert_token_to_treasury_vault(sol)", w.treasury_insert_token(&t, sol_mint));
+    st.ok("remove_token_from_treasury_vault", w.treasury_remove_token(&t, sol_mint));
+    st.ok("set_gt_factor", w.treasury_set_gt_factor(&t, keeper, UNIT / 2));
+    st.ok("set_buyback_factor", w.treasury_set_buyback_factor(&t, keeper, UNIT / 2));
+    st.go(
+        &mut w,
+        "set_referral_reward",
+        wtr::tix(ta::SetReferralReward { authority: keeper, store, config: t.config, store_program: STORE_PID }, ti::SetReferralReward { factors: vec![0, UNIT / 100, UNIT / 50, UNIT / 20] }),
+        &[keeper],
+    );
+    st.ok("mint_gt_reward", w.mint_gt_reward(keeper, u0, 50_000_000));
+    let window = w.gt_state().map(|g| g.exchange_time_window()).unwrap_or(86_400) as i64;
+    let index = w.svm.clock.unix_timestamp / window;
+    if let Some(vault) = st.ok("prepare_gt_exchange_vault", w.prepare_gt_exchange_vault(keeper, index)) {
+        st.ok("prepare_gt_bank", w.prepare_gt_bank(&t, vault));
+        st.ok("claim_fees", w.treasury_claim_fees(&t, mk, usdc_mint, 0));
+        token::fund_ata(&mut w.svm, &t.receiver, &usdc_mint, 1_000_000_000);
+        st.ok("deposit_to_treasury_vault", w.deposit_to_treasury_vault(&t, vault, usdc_mint));
+        st.ok("request_gt_exchange", w.request_gt_exchange(u0, vault, 10_000_000));
+        w.svm.warp(window - w.svm.clock.unix_timestamp % window + 10);
+        publish(&mut w, toks, 60_000 * E18);
+        st.ok("confirm_gt_buyback", w.confirm_gt_buyback(&t, vault));
+        st.ok("sync_gt_bank_v2", w.sync_gt_bank(&t, vault, usdc_mint));
+        st.ok("complete_gt_exchange", w.complete_gt_exchange(&t, u0, vault));
+    }
+    token::fund_ata(&mut w.svm, &keeper, &usdc_mint, 1);
+    st.ok("withdraw_from_treasury_vault", w.withdraw_from_treasury_vault(&t, usdc_mint, 1_000, 6, token::ata(&keeper, &usdc_mint)));
+    // treasury swap SOL (not a treasury token) -> USDC (deposit allowed) through the market, then cancel
+    {
+        token::fund_ata(&mut w.svm, &t.receiver, &sol_mint, 5_000_000_000);
+        let nonce = w.next_nonce();
+        let order = pda::find_order_address(&store, &t.receiver, &nonce, &STORE_PID).0;
+        let user = w.user_pda(&t.receiver);
+        let market = w.markets[mk].market;
+        let mut create = wtr::tix(
+            ta::CreateSwapV2 {
+                authority: keeper,
+                store,
+                config: t.config,
+                treasury_vault_config: t.vault_config,
+                swap_in_token: sol_mint,
+                swap_out_token: usdc_mint,
+                swap_in_token_receiver_vault: token::ata(&t.receiver, &sol_mint),
+                market,
+                receiver: t.receiver,
+                user,
+                swap_in_token_escrow: token::ata(&order, &sol_mint),
+                swap_out_token_escrow: token::ata(&order, &usdc_mint),
+                order,
+                event_authority: w.event_authority(),
+                store_program: STORE_PID,
+                token_program: spl_token::ID,
+                associated_token_program: associated_token::ID,
+                system_program: sys,
+                callback_authority: None,
+                callback_program: None,
+                callback_shared_data_account: None,
+                callback_partitioned_data_account: None,
+            },
+            ti::CreateSwapV2 { nonce, swap_path_length: 1, swap_in_amount: 1_000_000_000, min_swap_out_amount: None, callback_version: None },
+        );
+        create.accounts.push(AccountMeta::new_readonly(market, false));
+        let ixs = vec![w.prepare_ata_ix(keeper, t.receiver, usdc_mint), w.prepare_ata_ix(keeper, order, sol_mint), w.prepare_ata_ix(keeper, order, usdc_mint), create];
+        let r = w.send(&ixs, &[keeper]);
+        if st.ok("create_swap_v2", r).is_some() {
+            let cancel = wtr::tix(
+                ta::CancelSwap {
+                    authority: keeper,
+                    store,
+                    store_wallet: w.store_wallet(),
+                    config: t.config,
+                    receiver: t.receiver,
+                    user,
+                    swap_in_token: sol_mint,
+                    swap_out_token: usdc_mint,
+                    swap_in_token_receiver_vault: token::ata(&t.receiver, &sol_mint),
+                    swap_out_token_receiver_vault: token::ata(&t.receiver, &usdc_mint),
+                    swap_in_token_escrow: token::ata(&order, &sol_mint),
+                    swap_out_token_escrow: token::ata(&order, &usdc_mint),
+                    order,
+                    event_authority: w.event_authority(),
+                    store_program: STORE_PID,
+                    token_program: spl_token::ID,
+                    associated_token_program: associated_token::ID,
+                    system_program: sys,
+                },
+                ti::CancelSwap {},
+            );
+            st.go(&mut w, "cancel_swap", cancel, &[keeper]);
+        }
+    }
+    // TREASURY_OWNER starts handing the store's receiver role over to another key
+    st.go(
+        &mut w,
+        "transfer_receiver",
+        wtr::tix(
+            ta::TransferReceiver { authority: keeper, store, config: t.config, receiver: t.receiver, next_receiver: hostsvm::key("c19:next-receiver"), store_program: STORE_PID, system_program: sys },
+            ti::TransferReceiver {},
+        ),
+        &[keeper],
+    );
+    let traces = w.take_trace();
+    (Env { store }, traces)
+}
+
+/// Timelock: executors, config, delay, buffers created / approved (single and batch) / cancelled
+/// (single and batch) / executed after the delay, and the two timelock-bypassing instructions
+/// (world/timelock.rs, written for the C36 monitor).
+fn timelock_scenarios(st: &mut Steps) -> (Env, Vec<Traced>) {
+    use gmsol_utils::oracle::PriceProviderKind;
+    use wtl::*;
+    let mut w = World::bootstrap_store();
+    w.svm.keep_logs = std::env::var_os("C19_DEBUG").is_some();
+    w.bootstrap_oracle();
+    let sol = w.add_token("SOL", 9, 4, false);
+    let sol_mint = w.tokens[sol].mint;
+    let (store, keeper, token_map) = (w.store, w.keeper, w.token_map);
+    let approver = hostsvm::key("c19:tl-approver");
+    w.svm.airdrop(&approver, 1_000 * LAMPORTS);
+    w.enable_trace(3);
+    let pre = vec![(approver, timelocked_role(RoleKey::MARKET_KEEPER)), (approver, timelocked_role(RoleKey::CONFIG_KEEPER))];
+    // initialize_executor x3, store role set-up, transfer_store_authority, initialize_config
+    let t = w.bootstrap_timelock(store, &[ADMIN_EXECUTOR_ROLE, RoleKey::MARKET_KEEPER, RoleKey::CONFIG_KEEPER], 5, "c19", &pre);
+    let (tl_admin, tl_keeper) = (t.tl_admin, t.tl_keeper);
+    st.go(&mut w, "increase_delay", tl_increase_delay_ix(tl_admin, store, t.timelock_config, 1), &[tl_admin]);
+    let delay = 6i64;
+    let (ex, wallet) = (t.executors[2], t.wallets[2]);
+    let buf = |i: u32| hostsvm::key(&format!("c19:tl-buffer:{i}"));
+    let inner = |k: u64| insert_amount_ix(wallet, store, "oracle_max_age", 3_000 + k);
+    // one buffer goes the whole way
+    if st.ok("create_instruction_buffer", w.tl_create(tl_keeper, store, ex, buf(1), &inner(1))).is_some() {
+        st.ok("approve_instruction", w.tl_approve(approver, store, RoleKey::CONFIG_KEEPER, buf(1)));
+        w.svm.warp(delay + 1);
+        match w.tl_execute(tl_keeper, store, buf(1)) {
+            Some(r) => {
+                st.ok("execute_instruction", r);
+            }
+            None => st.failed.push("execute_instruction(buffer unreadable)".into()),
+        }
+    }
+    // batch approval, single and batch cancellation
+    let mut made = vec![];
+    for i in 2..=4u32 {
+        if st.ok("create_instruction_buffer", w.tl_create(tl_keeper, store, ex, buf(i), &inner(i as u64))).is_some() {
+            made.push(buf(i));
+        }
+    }
+    if made.len() == 3 {
+        st.go(&mut w, "approve_instructions", tl_approve_many_ix(approver, store, ex, RoleKey::CONFIG_KEEPER, &made[..2]), &[approver]);
+        st.go(&mut w, "cancel_instruction", tl_cancel_ix(tl_admin, store, ex, tl_keeper, made[0]), &[tl_admin]);
+        st.go(&mut w, "cancel_instructions", tl_cancel_many_ix(tl_admin, store, ex, tl_keeper, &made[1..]), &[tl_admin]);
+    }
+    // bypass instructions
+    st.go(&mut w, "revoke_role(bypass)", tl_bypass_revoke_role_ix(tl_admin, store, keeper, RoleKey::FEATURE_KEEPER), &[tl_admin]);
+    st.go(&mut w, "set_expected_price_provider", tl_bypass_set_expected_price_provider_ix(approver, store, token_map, sol_mint, PriceProviderKind::Pyth as u8), &[approver]);
+    let traces = w.take_trace();
+    (Env { store }, traces)
+}
+
+/// Liquidity-provider program: global state, controllers, every authority-only setter, stake / claim /
+/// unstake by the owner, two-step authority hand-over (world/lp.rs, written for the C38 monitor).
+fn lp_scenarios(st: &mut Steps) -> (Env, Vec<Traced>) {
+    use gmsol_liquidity_provider as lpp;
+    use wlp::*;
+    let mut w = World::bootstrap_store();
+    w.svm.keep_logs = std::env::var_os("C19_DEBUG").is_some();
+    w.bootstrap_oracle();
+    let btc = w.add_token("BTC", 8, 2, true);
+    let sol = w.add_token("SOL", 9, 4, false);
+    let usdc = w.add_token("USDC", 6, 6, false);
+    let m0 = w.add_market(sol, sol, usdc);
+    let toks = [btc, sol, usdc];
+    publish(&mut w, toks, 60_000 * E18);
+    let (sol_mint, usdc_mint) = (w.tokens[sol].mint, w.tokens[usdc].mint);
+    let u = w.add_user("lp0");
+    token::fund_ata(&mut w.svm, &u, &sol_mint, 1_000_000_000_000_000);
+    token::fund_ata(&mut w.svm, &u, &usdc_mint, 1_000_000_000_000_000);
+    let d = w.create_deposit(u, m0, 100 * 1_000_000_000, 10_000 * 1_000_000, None, None, &[], &[], 0).unwrap_or_else(|(e, _)| panic!("bootstrap step `create_deposit` failed: {e:?}"));
+    w.execute_deposit(d, true).unwrap_or_else(|(e, _)| panic!("bootstrap step `execute_deposit` failed: {e:?}"));
+    w.close_deposit(u, d).unwrap_or_else(|(e, _)| panic!("bootstrap step `close_deposit` failed: {e:?}"));
+    let pu = w.prepare_user_ix(u);
+    w.must("prepare_user", &[pu], &[u]);
+    let mint = w.markets[m0].market_token;
+    let store = w.store;
+    let admin = hostsvm::key("c19:lp-admin");
+    let next_admin = hostsvm::key("c19:lp-next-admin");
+    w.svm.airdrop(&next_admin, 10 * LAMPORTS);
+    w.enable_trace(3);
+    // initialize_gt (store), initialize (open: the caller becomes the authority), grant, oracle
+    w.lp_bootstrap(admin, &GtParams::like_tests(), 0, UNIT / 10);
+    let gs = lp_global_state();
+    for c in 0..2u64 {
+        let ix = w.lp_create_controller_ix(admin, mint, c);
+        st.go(&mut w, "create_lp_token_controller", ix, &[admin]);
+    }
+    let ix = w.lp_set_claim_enabled_ix(admin, true);
+    st.go(&mut w, "set_claim_enabled", ix, &[admin]);
+    st.go(&mut w, "set_pricing_staleness", ix_(LP_PID, lpp::accounts::SetPricingStaleness { global_state: gs, authority: admin }, lpp::instruction::SetPricingStaleness { staleness_seconds: 600 }), &[admin]);
+    let ix = w.lp_update_min_stake_value_ix(admin, 1);
+    st.go(&mut w, "update_min_stake_value", ix, &[admin]);
+    let ix = w.lp_update_apy_sparse_ix(admin, vec![0, 1], vec![UNIT / 10, UNIT / 20]);
+    st.go(&mut w, "update_apy_gradient_sparse", ix, &[admin]);
+    let ix = w.lp_update_apy_range_ix(admin, 2, 3, vec![UNIT / 10, UNIT / 10]);
+    st.go(&mut w, "update_apy_gradient_range", ix, &[admin]);
+    publish(&mut w, toks, 60_000 * E18);
+    let balance = token::token_amount(&w.svm, &token::ata(&u, &mint)).unwrap_or(0);
+    let ix = w.lp_stake_gm_ix(u, m0, 0, 1, balance / 2);
+    if st.go(&mut w, "stake_gm", ix, &[u]) {
+        w.svm.warp(3_600);
+        publish(&mut w, toks, 60_000 * E18);
+        let ix = w.lp_claim_gt_ix(u, mint, 0, 1);
+        st.go(&mut w, "claim_gt", ix, &[u]);
+        w.svm.warp(3_600);
+        let ix = w.lp_unstake_ix(u, mint, 0, 1, balance / 4);
+        st.go(&mut w, "unstake_lp", ix, &[u]);
+    }
+    let ix = w.lp_disable_controller_ix(admin, lp_controller(&mint, 1));
+    st.go(&mut w, "disable_lp_token_controller", ix, &[admin]);
+    st.go(&mut w, "transfer_authority", ix_(LP_PID, lpp::accounts::TransferAuthority { global_state: gs, authority: admin }, lpp::instruction::TransferAuthority { new_authority: next_admin }), &[admin]);
+    st.go(&mut w, "accept_authority", ix_(LP_PID, lpp::accounts::AcceptAuthority { global_state: gs, pending_authority: next_admin }, lpp::instruction::AcceptAuthority {}), &[next_admin]);
+    let traces = w.take_trace();
+    (Env { store }, traces)
+}
+
+/// Competition: the callbacks are sent directly with the store's callback-authority PDA listed as a
+/// signer (harness shortcut of world/competition.rs, written for the C39 monitor: on chain only the
+/// store can sign for it), plus `close_participant` by the trader after the end.
+fn competition_scenarios(st: &mut Steps) -> (Env, Vec<Traced>) {
+    use wc::*;
+    let mut w = World::bootstrap_store();
+    w.svm.keep_logs = std::env::var_os("C19_DEBUG").is_some();
+    let store = w.store;
+    let payer = hostsvm::key("c19:comp-payer");
+    let trader = hostsvm::key("c19:comp-trader");
+    w.svm.airdrop(&payer, 1_000 * LAMPORTS);
+    w.svm.airdrop(&trader, 100 * LAMPORTS);
+    w.enable_trace(3);
+    let now = w.svm.clock.unix_timestamp;
+    let p = CompParams { start_time: now + 10, end_time: now + 10_000, volume_threshold: 1_000 * UNIT, extension_duration: 60, extension_cap: 600, only_count_increase: false, volume_merge_window: 30 };
+    st.go(&mut w, "initialize_competition", comp_initialize_ix(payer, &p), &[payer]);
+    let comp = competition_pda(&payer, p.start_time);
+    st.go(&mut w, "create_participant_idempotent", comp_create_participant_ix(payer, comp, trader), &[payer]);
+    w.svm.warp(20);
+    let part = participant_pda(&comp, &trader);
+    let (order, position, td) = (hostsvm::key("c19:comp-order"), hostsvm::key("c19:comp-position"), hostsvm::key("c19:comp-trade-event"));
+    let a1 = CallbackArgs::store_like(1);
+    let signers = [payer, a1.authority];
+    st.go(&mut w, "on_created", comp_on_created_ix(&a1, comp, part, trader, order, position), &signers);
+    st.go(&mut w, "on_updated", comp_on_other_ix(&a1, false, comp, part, trader, order), &signers);
+    let a2 = CallbackArgs::store_like(2);
+    set_trade_data(&mut w.svm, td, trader, 0, 500 * UNIT);
+    st.go(&mut w, "on_executed", comp_on_executed_ix(&a2, true, comp, part, trader, order, position, Some(td)), &signers);
+    st.go(&mut w, "on_executed(failed order)", comp_on_executed_ix(&a2, false, comp, part, trader, order, position, None), &signers);
+    st.go(&mut w, "on_closed", comp_on_other_ix(&a1, true, comp, part, trader, order), &signers);
+    w.svm.warp(20_000);
+    st.go(&mut w, "close_participant", comp_close_participant_ix(trader, comp), &[trader]);
+    let traces = w.take_trace();
+    (Env { store }, traces)
+}
+
 
 /// Additional positive scenarios (each instruction at least once, failures ignored: they only cost
 /// coverage). Uses a dedicated world so that toggles do not disturb the exchange workload.
-fn extra_scenarios(seed: u64, shard: u64) -> (Env, Vec<Traced>) {
+fn extra_scenarios() -> (Env, Vec<Traced>) {
     use gmsol_store::{accounts as sa, instruction as si};
     use gmsol_utils::oracle::PriceProviderKind;
-    let _ = (seed, shard);
     let mut w = World::bootstrap_store_with_trace(3);
     w.bootstrap_oracle();
     let btc = w.add_token("BTC", 8, 2, true);
@@ -346,7 +1151,7 @@ fn extra_scenarios(seed: u64, shard: u64) -> (Env, Vec<Traced>) {
     let (keeper, admin, store, token_map) = (w.keeper, w.admin, w.store, w.token_map);
     let market = w.markets[mk].market;
     let sol_mint = w.tokens[sol].mint;
-    let mut go = |w: &mut World, ix: Instruction, signers: &[Pubkey]| {
+    let go = |w: &mut World, ix: Instruction, signers: &[Pubkey]| {
         let _ = w.send(&[ix], signers);
     };
     go(&mut w, six(sa::ToggleFeature { authority: keeper, store }, si::ToggleFeature { domain: "deposit".into(), action: "create".into(), enable: false }), &[keeper]);
@@ -432,14 +1237,14 @@ fn extra_scenarios(seed: u64, shard: u64) -> (Env, Vec<Traced>) {
     let _ = w.grant(&pal, RoleKey::ORDER_KEEPER);
     let _ = w.revoke(&pal, RoleKey::ORDER_KEEPER);
     go(&mut w, six(sa::DisableRole { authority: admin, store }, si::DisableRole { role: RoleKey::MIGRATION_KEEPER.into() }), &[admin]);
+    // a cluster restart: the admin refreshes the cached slot (until then RESTART_ADMIN stands for any role)
+    w.svm.last_restart_slot += 7;
     go(&mut w, six(sa::UpdateLastRestartedSlot { authority: admin, store }, si::UpdateLastRestartedSlot {}), &[admin]);
     go(&mut w, six(sa::TransferReceiver { authority: admin, store, next_receiver: pal }, si::TransferReceiver {}), &[admin]);
     go(&mut w, six(sa::AcceptReceiver { next_receiver: pal, store }, si::AcceptReceiver {}), &[pal]);
     go(&mut w, six(sa::TransferStoreAuthority { authority: admin, store, next_authority: pal }, si::TransferStoreAuthority {}), &[admin]);
     go(&mut w, six(sa::AcceptStoreAuthority { next_authority: pal, store }, si::AcceptStoreAuthority {}), &[pal]);
-    // the env's admin is the ORIGINAL admin for replays of transactions recorded before the transfer;
-    // revocations in replays run on the recorded pre-states, where `admin` was still the authority.
-    let env = Env { store, admin };
+    let env = Env { store };
     let traces = w.take_trace();
     (env, traces)
 }
@@ -479,7 +1284,6 @@ fn gt_glv_scenarios() -> (Env, Vec<Traced>) {
         let mt3 = w.markets[3].market_token;
         let _ = w.update_glv_market_config(&glv, mt3, Some(u64::MAX / 2), Some(u128::MAX / 4));
         let _ = w.toggle_glv_market_flag(&glv, mt3, GlvMarketFlag::IsDepositAllowed, true);
-        let _ = w.update_glv_config(&glv, UpdateGlvParams { min_tokens_for_first_deposit: None, shift_min_interval_secs: Some(0), shift_max_price_impact_factor: Some(UNIT), shift_min_value: Some(0) });
         if let Ok(d) = w.create_glv_deposit(user, &glv, 0, 0, 2_000_000_000, 300_000_000, 0, 0) {
             let _ = w.execute_glv_deposit(d, false);
             let _ = w.close_glv_deposit(keeper, d);
@@ -493,19 +1297,27 @@ fn gt_glv_scenarios() -> (Env, Vec<Traced>) {
             let _ = w.execute_glv_withdrawal(wd, false);
             let _ = w.close_glv_withdrawal(keeper, wd);
         }
+        // each field must differ from the current value: one call per field so that one odd default costs one call only
+        let _ = w.update_glv_config(&glv, UpdateGlvParams { min_tokens_for_first_deposit: None, shift_min_interval_secs: Some(0), shift_max_price_impact_factor: None, shift_min_value: None });
+        let _ = w.update_glv_config(&glv, UpdateGlvParams { min_tokens_for_first_deposit: None, shift_min_interval_secs: None, shift_max_price_impact_factor: Some(UNIT), shift_min_value: None });
+        let _ = w.update_glv_config(&glv, UpdateGlvParams { min_tokens_for_first_deposit: None, shift_min_interval_secs: None, shift_max_price_impact_factor: None, shift_min_value: Some(7) });
+        let _ = w.update_glv_config(&glv, UpdateGlvParams { min_tokens_for_first_deposit: Some(12_345), shift_min_interval_secs: Some(3), shift_max_price_impact_factor: None, shift_min_value: None });
+        // a market without balance can be removed again
+        let _ = w.insert_glv_market(&glv, 1);
+        let _ = w.remove_glv_market(&glv, 1);
         let _ = w.remove_glv_market(&glv, 3);
     }
-    let env = Env { store: w.store, admin: w.admin };
+    let env = Env { store: w.store };
     let traces = w.take_trace();
     (env, traces)
 }
 
 fn run_shard(args: &Args, shard: u64, m: &mut Monitor) {
-    let mut budget: BTreeMap<&'static str, u32> = BTreeMap::new();
+    let mut budget: Budget = BTreeMap::new();
     // Source 1: bootstrap + exchange workload
     let steps = args.scale(220, 500);
     let mut sim = Sim::new_traced(args.seed, shard, 6);
-    let env = Env { store: sim.w.store, admin: sim.w.admin };
+    let env = Env { store: sim.w.store };
     for _ in 0..steps {
         let _ = sim.step();
     }
@@ -544,24 +1356,34 @@ fn run_shard(args: &Args, shard: u64, m: &mut Monitor) {
     for t in &traces {
         replay(m, &env, t, &mut budget, shard);
     }
-    // Source 3: admin / configuration / virtual-inventory / authority-transfer scenarios
-    if shard % 4 == 0 {
-        let (env2, traces2) = extra_scenarios(args.seed, shard);
-        m.add("traced_transactions", traces2.len() as u64);
-        for t in &traces2 {
-            replay(m, &env2, t, &mut budget, shard);
+    // Sources 3..10: dedicated scenario worlds, one per shard class
+    type Scenario = fn(&mut Steps) -> (Env, Vec<Traced>);
+    let (what, f): (&str, Scenario) = match shard % 8 {
+        0 => ("store_admin_config", |_| extra_scenarios()),
+        1 => ("store_gt_glv", |_| gt_glv_scenarios()),
+        2 => ("treasury", treasury_scenarios),
+        3 => ("timelock", timelock_scenarios),
+        4 => ("liquidity_provider", lp_scenarios),
+        5 => ("competition", competition_scenarios),
+        6 => ("store_orders_positions", store_more_scenarios),
+        _ => ("store_adl", adl_scenario),
+    };
+    let mut st = Steps::new();
+    match guard(|| f(&mut st)) {
+        Ok((env2, traces2)) => {
+            m.count(&format!("scenario_runs_{what}"));
+            m.add("traced_transactions", traces2.len() as u64);
+            for t in &traces2 {
+                replay(m, &env2, t, &mut budget, shard);
+            }
         }
+        Err(e) => m.inconclusive(&format!("harness: scenario `{what}` aborted: {e}")),
     }
-    // Source 4: GT / GLV administration and keeper scenarios
-    if shard % 4 == 1 {
-        let (env3, traces3) = gt_glv_scenarios();
-        m.add("traced_transactions", traces3.len() as u64);
-        for t in &traces3 {
-            replay(m, &env3, t, &mut budget, shard);
-        }
+    for s in &st.failed {
+        m.count(&format!("scenario_step_failed_{what}:{s}"));
     }
-    for (name, n) in budget {
-        m.max(&format!("max_variants_runs_{name}"), n as u64);
+    for ((prog, name), n) in budget {
+        m.max(&format!("max_variants_runs_{}", label(prog, name)), n as u64);
     }
 }
 
@@ -569,36 +1391,57 @@ pub fn run(args: &Args) -> Option<i32> {
     let mut mon = Monitor::new(
         args,
         "authority-mutation replay: every successful transaction of the traced workloads (store bootstrap, exchange \
-         workload, oracle / config scenarios) is re-executed from its pre-state, per privileged instruction, with \
-         (A) the signer's required role revoked via the real revoke_role, (B) a stranger as signer, (C) a holder of \
-         all other roles as signer; all must be rejected. non-trivial = a denied variant; distinct = (variant, instruction)",
+         workload, oracle / config / GT / GLV / order / ADL scenarios, treasury, timelock, liquidity-provider and competition \
+         scenarios) is re-executed from its pre-state, per privileged instruction, with (A) the signer's required role \
+         revoked via the real revoke_role, (B) a stranger as signer, (C) a holder of all other roles as signer; all must be \
+         rejected. non-trivial = a denied variant; distinct = (variant, program, instruction)",
     );
-    mon.assume("privilege table written from the instruction documentation (c19.rs STORE_TABLE)");
+    mon.assume("privilege tables written from the instruction documentation (c19.rs STORE_TABLE, TREASURY_TABLE, TIMELOCK_TABLE, LP_TABLE, COMPETITION_TABLE)");
     mon.assume("'rejection leaves accounts unchanged' is provided by transaction atomicity (runtime), not observed");
+    mon.assume("grants / revocations of the variants are signed by the store authority of the replayed pre-state; a PDA authority (timelock ADMIN executor wallet) and the store's callback-authority PDA are listed as transaction signers by the harness (hostsvm accepts any listed key)");
+    for p in Prog::ALL {
+        let (missing, extra) = p.table_drift();
+        if !missing.is_empty() || !extra.is_empty() {
+            mon.inconclusive(&format!("harness: privilege table of `{}` out of date: not in table {missing:?}, not in program {extra:?}", p.name()));
+        }
+    }
     let shards = args.scale(16, 64);
     let quiet = hostsvm::QuietStdout::new();
     run_shards(&mut mon, args.threads, shards, |shard, m| run_shard(args, shard, m));
     drop(quiet);
-    // coverage report: which privileged instructions had a positive scenario with denied variants
-    let mut covered: BTreeSet<&str> = BTreeSet::new();
-    let mut uncovered: Vec<&str> = vec![];
-    for (name, p) in STORE_TABLE {
-        if *p == Open {
-            continue;
+    // coverage report per program: which privileged instructions had a positive scenario with denied variants
+    for p in Prog::ALL {
+        let mut covered: BTreeSet<&str> = BTreeSet::new();
+        let mut uncovered: Vec<&str> = vec![];
+        let mut open: Vec<&str> = vec![];
+        for (name, pr) in p.table() {
+            if *pr == Open {
+                open.push(name);
+            } else if mon.counter(&format!("positive_{}", label(p, name))) > 0 {
+                covered.insert(name);
+            } else {
+                uncovered.push(name);
+            }
         }
-        if mon.counter(&format!("positive_{name}")) > 0 {
-            covered.insert(name);
-        } else {
-            uncovered.push(name);
-        }
+        mon.set_extra(&format!("{}_privileged_instructions_covered", p.name()), json!(covered));
+        mon.set_extra(&format!("{}_privileged_instructions_without_positive_scenario", p.name()), json!(uncovered));
+        mon.set_extra(&format!("{}_instructions_open_by_design", p.name()), json!(open));
+        let key = if p == Prog::Store { "privileged_instructions_covered".to_string() } else { format!("{}_privileged_instructions_covered", p.name()) };
+        mon.add(&key, covered.len() as u64);
     }
-    mon.set_extra("store_privileged_instructions_covered", json!(covered));
-    mon.set_extra("store_privileged_instructions_without_positive_scenario", json!(uncovered));
     mon.set_extra(
-        "other_programs",
-        json!("treasury / timelock / liquidity-provider / competition instruction tables: scenarios not wired into this check yet; their role rules are exercised by the C36 / C37 / C38 / C39 monitors' own negative cases"),
+        "no_positive_scenario_possible_in_this_build",
+        json!({
+            "store.gt_set_exchange_time_window": "returns Unimplemented unless the program is built with the `test-only` feature",
+            "store.migrate_referral_code": "returns Unimplemented unless the program is built with the `migration` feature",
+            "store.create_token_metadata": "needs the Metaplex token-metadata program, which hostsvm does not provide",
+            "store.update_token_metadata": "needs the Metaplex token-metadata program, which hostsvm does not provide",
+        }),
     );
-    mon.add("privileged_instructions_covered", covered.len() as u64);
     mon.require("privileged_instructions_covered", 15);
+    mon.require("treasury_privileged_instructions_covered", 12);
+    mon.require("timelock_privileged_instructions_covered", 8);
+    mon.require("liquidity_provider_privileged_instructions_covered", 8);
+    mon.require("competition_privileged_instructions_covered", 4);
     Some(mon.finish())
 }
